@@ -459,6 +459,7 @@ func runC13(c *Ctx) {
 }
 
 var c13Canaries = []Canary{
+	{Name: "r7-rev-list-name-field", ExpectKey: "C13.R5#rev-list:name-is-rest-of-line", Edits: []Edit{{File: "git/rev_list_scanner.go", Find: "\t\treturn nil, \"\", err\n\t}\n\n\tvar name string\n\tif len(line) > len(oidhex) {\n\t\tname = line[len(oidhex)+1:]\n\t}\n\n\treturn oid, name, nil\n", Repl: "\t\treturn nil, \"\", err\n\t}\n\n\t// The object name, if any, follows the object ID and is separated\n\t// from it by whitespace.\n\tvar name string\n\tif fields := strings.Fields(line); len(fields) > 1 {\n\t\tname = fields[1]\n\t}\n\n\treturn oid, name, nil\n"}}},
 	{Name: "r6-rev-list-close-error-dropped", ExpectKey: "C13.R6#rev-list:close-error-reported", Edits: []Edit{{File: "lfs/gitscanner_refs.go", Find: "\terrs := make(chan error, 5) // may be multiple errors\n\n\tgo func() {\n\t\tfor revListScanner.Scan() {\n\t\t\tsha := hex.EncodeToString(revListScanner.OID())\n\t\t\tif name := revListScanner.Name(); len(name) > 0 {\n", Repl: "\terrs := make(chan error, 5) // may be multiple errors\n\n\tgo func() {\n\t\tdefer close(errs)\n\t\tdefer close(revs)\n\t\tdefer revListScanner.Close()\n\n\t\tfor revListScanner.Scan() {\n\t\t\tsha := hex.EncodeToString(revListScanner.OID())\n\t\t\tif name := revListScanner.Name(); len(name) > 0 {\n"}, {File: "lfs/gitscanner_refs.go", Find: "\t\t\trevs <- sha\n\t\t}\n\n\t\tif err = revListScanner.Err(); err != nil {\n\t\t\terrs <- err\n\t\t}\n\n\t\tif err = revListScanner.Close(); err != nil {\n\t\t\terrs <- err\n\t\t}\n\n\t\tclose(revs)\n\t\tclose(errs)\n\t}()\n\n\treturn NewStringChannelWrapper(revs, errs), nameMap, nil\n", Repl: "\t\t\trevs <- sha\n\t\t}\n\n\t\tif err := revListScanner.Err(); err != nil {\n\t\t\terrs <- err\n\t\t}\n\t}()\n\n\treturn NewStringChannelWrapper(revs, errs), nameMap, nil\n"}}},
 	{Name: "r5-ls-tree-full-name", ExpectKey: "C13.R5#git.LsTree", Edits: []Edit{{File: "git/git.go", Find: "\t\t\"--full-tree\", // start at the root regardless of where we are in it", Repl: "\t\t\"--full-name\", // start at the root regardless of where we are in it"}}},
 	{Name: "r4-source-name-first", ExpectKey: "C13.R3#index-entry-name", Edits: []Edit{{File: "lfs/gitscanner_index.go", Find: "\t\t\tvar name string = scanner.Entry().DstName\n\t\t\tif len(name) == 0 {\n\t\t\t\tname = scanner.Entry().SrcName", Repl: "\t\t\tvar name string = scanner.Entry().SrcName\n\t\t\tif len(name) == 0 {\n\t\t\t\tname = scanner.Entry().DstName"}}},
